@@ -234,6 +234,13 @@ def run_case(ctx, case):
                 inner = inner["arg"]
             if inner is not culprit:
                 preds["wrapped"] = inner["k"]
+                try:  # what the wrapper really wraps (the overloads may have simplified the spec: Diagonal @ Identity is the Diagonal)
+                    op_ = B.build(culprit)
+                    while isinstance(op_, (cola.ops.Transpose, cola.ops.Adjoint)):
+                        op_ = op_.A
+                    preds["wrapped"] = type(op_).__name__.split("[")[0]
+                except Exception:  # noqa
+                    pass
             evs = np.linalg.eigvals(cr.M)
             preds["negative_real_eigenvalue"] = bool(np.any((evs.real < 0) & (np.abs(evs.imag) <= 1e-9 * np.abs(evs))))
             preds["complex"] = cr.dtype.kind == "c"
